@@ -2056,7 +2056,9 @@ class Builder:
                     # Otherwise: free the qubits.
                     if not params.sequential:
                         for q in qubits:
-                            q.free()
+                            # only free the memory: the handles are used again
+                            # by the next try and after the loop
+                            self._build_cmds_qfree(q.qubit_id)
 
                 loop.set_cleanup_code(cleanup)
 
@@ -2096,7 +2098,9 @@ class Builder:
                     # Otherwise: free the qubits.
                     if not params.sequential:
                         for q in qubits:
-                            q.free()
+                            # only free the memory: the handles are used again
+                            # by the next try and after the loop
+                            self._build_cmds_qfree(q.qubit_id)
 
                 loop.set_cleanup_code(cleanup)
 
